@@ -530,6 +530,7 @@ pub fn analyse(case: &RegCase, res: &RunResult) -> CaseReport {
     let mut open_sec: HashMap<(i32, usize), Vec<usize>> = HashMap::new();
     let mut frees: Vec<(usize, usize)> = Vec::new();
     let mut installed: Vec<(usize, i64)> = Vec::new();
+    let mut installed_tid: HashMap<i64, i32> = HashMap::new();
     let mut foreign_installs: Vec<(usize, i64, i64)> = Vec::new(); // (pos, sig, variant)
     let mut blocked_mutex = false;
     let mut spun = false;
@@ -566,7 +567,10 @@ pub fn analyse(case: &RegCase, res: &RunResult) -> CaseReport {
                     }
                 }
                 Event::Free => frees.push((i, *a)),
-                Event::Installed => installed.push((i, *a as i64)),
+                Event::Installed => {
+                    installed.push((i, *a as i64));
+                    installed_tid.insert(*a as i64, r.tid);
+                }
                 _ => {}
             },
             Item::Mark { name, a, b } => match *name {
@@ -966,7 +970,10 @@ pub fn analyse(case: &RegCase, res: &RunResult) -> CaseReport {
             None => continue,
         };
         // the first registration of this signal: its call position and its data publish
-        let first_reg = ops.iter().filter(|o| o.name == "register" && o.a == d.sig && o.call < ipos).last();
+        // the registration that performed the take-over: the one on whose thread the library's
+        // handler was installed (others of the same signal may be queued behind the writer lock)
+        let itid = installed_tid.get(&d.sig).cloned().unwrap_or(-9);
+        let first_reg = ops.iter().filter(|o| o.name == "register" && o.a == d.sig && o.thread == itid && o.call < ipos && o.ret.map_or(true, |r| r > ipos)).last();
         let reg_call = first_reg.map_or(0, |o| o.call);
         let first_pub = pubs.iter().find(|p| ops[p.op].name == "register" && ops[p.op].a == d.sig).map(|p| p.pos).unwrap_or(usize::MAX);
         let at_takeover = prior_at(d.sig, ipos);
@@ -1218,12 +1225,15 @@ pub fn run_case(case: &RegCase) -> CaseReport {
 pub enum RegOrProbe {
     Reg(RegCase),
     Probe(crate::probe::ProbeCase),
+    /// removal by dropping the owning iterator instance while deliveries keep arriving
+    Iter(crate::iter::IterCase),
 }
 
 pub fn run_any(c: &RegOrProbe) -> CaseReport {
     match c {
         RegOrProbe::Reg(c) => run_case(c),
         RegOrProbe::Probe(c) => crate::probe::run_case(c),
+        RegOrProbe::Iter(c) => crate::iter::run_case(c),
     }
 }
 
@@ -1244,8 +1254,9 @@ macro_rules! worker_fn {
 }
 fn w01(def: &PropDef, args: &WorkerArgs) -> WorkerReport {
     let strat = prop_oneof![
-        1 => strategy(Focus::C01).prop_map(RegOrProbe::Reg),
-        1 => crate::probe::strategy().prop_map(RegOrProbe::Probe),
+        3 => strategy(Focus::C01).prop_map(RegOrProbe::Reg),
+        3 => crate::probe::strategy().prop_map(RegOrProbe::Probe),
+        1 => crate::iter::strategy(true).prop_map(RegOrProbe::Iter),
     ]
     .boxed();
     generic_worker(def, args, strat, &run_any)
@@ -1273,7 +1284,7 @@ const ASSUME: &[&str] = &[
 pub static C01: PropDef = PropDef {
     id: "C01",
     prefixes: &["C01/", "crash/sig=11", "crash/sig=7"],
-    rule: "proptest-generated programs of 2-5 threads x <=5 ops over {register, unregister(own/shared id), unregister_signal, deliver} on 3 signals + nested deliveries at generated points x byte schedule, one forked child per case; oracle: quiescence of removed actions, capture released exactly once by the removing thread inside the removing call at handler depth 0, snapshot epochs (no free while a read section is open, no section on a freed snapshot), no action sees a released capture. Non-trivial = a read section overlapped a removal's publish..return window or a delivery nested inside a removal; distinct = hash of realised call/return/delivery/publish interleaving",
+    rule: "three proptest-generated families: (a) registry programs of 2-5 threads x <=5 ops over {register, unregister(own/shared id), unregister_signal, deliver} on 3 signals + nested deliveries at generated points x byte schedule, one forked child per case; (b) the bare half-lock in-process (stores/updates, read sections with body points, nested and isolated reads, weak-memory choices on); (c) iterator instances dropped together with all handles while deliveries keep arriving (no action of the dropped instance may run afterwards); oracle: quiescence of removed actions, capture released exactly once by the removing thread inside the removing call at handler depth 0, snapshot epochs (no free while a read section is open, no section on a freed snapshot), no action sees a released capture. Non-trivial = a read section overlapped a removal's publish..return window or a delivery nested inside a removal; distinct = hash of realised call/return/delivery/publish interleaving",
     assumptions: ASSUME,
     cases: (3000, 60_000),
     shrink_iters: 600,
@@ -1309,7 +1320,7 @@ pub static C04: PropDef = PropDef {
 pub static C18: PropDef = PropDef {
     id: "C18",
     prefixes: &["C18/"],
-    rule: "same generator with 2-5 mutator threads, panicking mutators (forbidden signal; capture whose Drop panics inside the publishing call) and finite deliveries; after the generated schedule prefix the executor completes fairly; oracle: no deadlock, completion within the step bound, no unexpected panic in a later mutator. Non-trivial = a mutator blocked on the writer mutex, the barrier spun, or a panicking mutator preceded another; distinct = hash of realised interleaving",
+    rule: "two scopes (whole registry in a forked child; bare half-lock in-process), same generators with 2-5 mutator threads, panicking mutators (forbidden signal; capture whose Drop panics inside the publishing call) and finite deliveries; after the generated schedule prefix the executor completes fairly; oracle: no deadlock, completion within the step bound, no unexpected panic in a later mutator. Non-trivial = a mutator blocked on the writer mutex, the barrier spun, or a panicking mutator preceded another; distinct = hash of realised interleaving",
     assumptions: ASSUME,
     cases: (2500, 60_000),
     shrink_iters: 600,
